@@ -269,7 +269,7 @@ def commonC2JW (c2jw : List (Option (List Int))) (newCharges : List (List CTerm)
     let cands := (newCharges.zip newMod).zipIdx.filter (fun ((_, m), _) => m == 1 || m % 2 == 0)
     match cands.find? (fun ((nc, _), _) => sameSet nc need) with
     | some (_, ni) =>
-      -- the search stops at the first exact match *unless* an earlier subset was only recorded
+      -- an exact match returns immediately, whatever subsets were recorded before it
       some (zeros.set ni 1)
     | none =>
       let subs := cands.filter (fun ((nc, _), _) => subSet nc need)
